@@ -58,6 +58,7 @@ def strategy(tier):
         "nmodes": st.integers(1, 3), "gen": st.booleans(), "sigma": st.booleans(),
         "dir": st.integers(0, 5),
         "dense": st.sampled_from(["linsolve_sym", "linsolve_gen", "inverse", "eig_sym", "linsolve_sym_mixed"]),
+        "nonsym": st.booleans(),     # T4/T5: non-symmetric system matrix (AssembleGeneral with a non-symmetric element matrix)
         "agg": st.sampled_from(["pnorm", "ks", "soft"]), "agg_opt": st.sampled_from(["plain", "active", "undamped"]),
         "final_k": st.integers(0, 3), "final_seeds": st.lists(st.integers(0, 3), min_size=1, max_size=3),
     })
@@ -231,7 +232,14 @@ def build(case):
         dom = _domain({**o, "dim3": False})
         designs = [rng.uniform(0.3, 1.0, dom.nel) for _ in range(4)]
         x, K = S("x", designs[0].copy()), S("K")
-        mods = [pym.AssemblePoisson(x, K, dom)]
+        if o.get("nonsym"):
+            # positive definite symmetric part + skew part: every assembled A_ff is non-singular and non-symmetric
+            Z = rng.standard_normal((4, 4))
+            W = rng.standard_normal((4, 4))
+            mods = [pym.AssembleGeneral(x, K, dom, element_matrix=Z @ Z.T + np.eye(4) + 0.5 * (W - W.T))]
+            labels.append("nonsymmetric_matrix")
+        else:
+            mods = [pym.AssemblePoisson(x, K, dom)]
         n = dom.nnodes
         perm = rng.permutation(n)
         if T == "T4":
